@@ -24,3 +24,69 @@ package function
 //@   ensures ok-nonnil: result1 == nil ==> result0 != nil
 //@   loop 0 invariant 0 <= i && i <= stepsBatch && len(scalarPoints) == stepsBatch && fresh(scalarPoints)
 //@   loop 1 invariant 0 <= f.vectorIndex && f.vectorIndex < len(funcExpr.Args)
+
+// ---- operator.go: functionOperator.Next (C06, C18) -----------------------------------------------
+// The batch of the vector-typed argument is edited in place: one output vector per input vector,
+// same timestamps. Scalar arguments are paired with it step by step: the value handed to the
+// function for step b and scalar argument j is the sample the j-th scalar child delivers at
+// position b of its batch, NaN if it has none there (statement of C06).
+// Assumed (consumer side of C18, stated there as "no step repeated or skipped relative to its
+// siblings"): a scalar child's batch, if it has one, is as long as the vector child's, and a batch
+// never exceeds the batch size the operator was built for.
+//@ extern field:execution/function.functionOperator.call(f) r
+//@   pure
+//@ pred fopInv(o) = o != nil && 0 <= o.vectorIndex && o.vectorIndex < len(o.nextOps) && (forall i in 0..len(o.nextOps) :: o.nextOps[i] != nil) &&
+//@     !isnil(o.call) && o.funcExpr != nil && o.funcExpr.Func != nil && len(o.pointBuf) == 1 &&
+//@     (forall b in 0..len(o.scalarPoints) :: len(o.scalarPoints[b]) == len(o.nextOps) - 1)
+//@ pred fopSeries(o) = (o.funcExpr.Func.Name == "vector" || o.funcExpr.Func.Name == "scalar" ==> len(o.series) == 1) &&
+//@     (o.funcExpr.Func.Name != "vector" && o.funcExpr.Func.Name != "scalar" ==> len(o.series) == o.nextOps[o.vectorIndex].nSeries)
+//@ pred vecOK(v, n) = len(v.SampleIDs) == len(v.Samples) && (forall j in 0..len(v.SampleIDs) :: v.SampleIDs[j] < n)
+//@ pred batchOK(vs, from, to, n) = forall k in from..to :: len(vs[k].SampleIDs) == len(vs[k].Samples) && (forall j in 0..len(vs[k].SampleIDs) :: vs[k].SampleIDs[j] < n)
+//@ pred sepIDs(vs) = (forall a in 0..len(vs) :: allocated(vs[a].SampleIDs)) &&
+//@     (forall a in 0..len(vs) :: forall b in a+1..len(vs) :: ref(vs[a].SampleIDs) != ref(vs[b].SampleIDs) || ref(vs[a].SampleIDs) == 0)
+//@ pred validSample(r) = !(r.Point.T == function.InvalidSample.Point.T && feq(r.Point.V, function.InvalidSample.Point.V) && r.Point.H == function.InvalidSample.Point.H)
+//@ func (*functionOperator).Next
+//@   requires ctx != nil && fopInv(o)
+//@   requires series-list-loaded-once: o.once != 0 ==> fopSeries(o)
+//@   requires vector-of-a-scalar-has-one-series: o.funcExpr.Func.Name == "vector" ==> o.nextOps[o.vectorIndex].nSeries == 1
+//@   panics may
+//@   ghostvar nvalid int = 0
+//@   ensures[C18] error-means-no-batch: result1 != nil ==> isnil(result0)
+//@   ensures[C06,C07,C18] one-output-vector-per-input-vector: result1 == nil && !isnil(result0) ==>
+//@       sameslice(result0, callres("model.VectorOperator.Next", 1, 0))
+//@   ensures[C18] ids-index-the-series-list: result1 == nil && !isnil(result0) ==> batchOK(result0, 0, len(result0), len(o.series))
+//@   ensures[C06] scalar-delivers-one-sample-per-step: result1 == nil && !isnil(result0) && o.funcExpr.Func.Name == "scalar" ==>
+//@       forall k in 0..len(result0) :: len(result0[k].Samples) == 1
+//@   at line "scalarIndex := 0" assume sibling-lockstep-batch-fits: len(vectors) <= len(o.scalarPoints)
+//@   at line "for batchIndex := range vectors {" assume sibling-lockstep: len(scalarVectors) == 0 || len(scalarVectors) == len(vectors)
+//@   at line "o.scalarPoints[batchIndex][scalarIndex] = val" assert[C06] scalar-argument-of-this-step-or-NaN:
+//@       val == ite(len(scalarVectors) > 0 && len(scalarVectors[batchIndex].Samples) > 0, scalarVectors[batchIndex].Samples[0], nan())
+//@   at line "vectors[batchIndex].Samples = append(vector.Samples[:0], val)" assert[C06] scalar-is-NaN-unless-exactly-one-element:
+//@       val == ite(len(vector.Samples) == 1, vector.Samples[0], nan())
+//@   at line "for i := range vector.Samples {" assert first-id-indexes-series: len(vector.SampleIDs) > 0 ==> vector.SampleIDs[0] < o.nextOps[o.vectorIndex].nSeries
+//@   at field:execution/function.functionOperator.call assert[C06] function-gets-the-sample: len($f.Points) == 1 && $f.Points[0].V == vector.Samples[i]
+//@   at field:execution/function.functionOperator.call assert[C06] function-gets-the-step-time: $f.StepTime == vector.T
+//@   at field:execution/function.functionOperator.call assert[C06] function-gets-the-scalars-of-its-step: sameslice($f.ScalarPoints, o.scalarPoints[batchIndex])
+//@   after field:execution/function.functionOperator.call set nvalid = nvalid + ite(validSample($r), 1, 0)
+//@   at line "vector.Samples[kept] = result.V" assert[C06] kept-sample-has-a-value: validSample(result)
+//@   loop 0 invariant op0: fopInv(o) && fopSeries(o) && len(vectors) > 0 && len(vectors) <= len(o.scalarPoints) && sameslice(vectors, callres("model.VectorOperator.Next", 1, 0)) &&
+//@       batchOK(vectors, 0, len(vectors), o.nextOps[o.vectorIndex].nSeries)
+//@   loop 0 invariant step-vectors-own-their-ids0: sepIDs(vectors)
+//@   loop 0 invariant scalar-index: scalarIndex == ite(rangeindex + 1 > o.vectorIndex, rangeindex, rangeindex + 1)
+//@   loop 1 invariant op1: fopInv(o) && fopSeries(o) && len(vectors) > 0 && len(vectors) <= len(o.scalarPoints) && sameslice(vectors, callres("model.VectorOperator.Next", 1, 0)) &&
+//@       batchOK(vectors, 0, len(vectors), o.nextOps[o.vectorIndex].nSeries) && 0 <= scalarIndex && scalarIndex < len(o.nextOps) - 1 &&
+//@       (len(scalarVectors) == 0 || len(scalarVectors) == len(vectors))
+//@   loop 1 invariant step-vectors-own-their-ids1: sepIDs(vectors)
+//@   loop 2 invariant op2: fopInv(o) && fopSeries(o) && len(vectors) > 0 && len(vectors) <= len(o.scalarPoints) && sameslice(vectors, callres("model.VectorOperator.Next", 1, 0))
+//@   loop 2 invariant step-vectors-own-their-ids: sepIDs(vectors)
+//@   loop 2 invariant rest-as-delivered: batchOK(vectors, rangeindex + 1, len(vectors), o.nextOps[o.vectorIndex].nSeries)
+//@   loop 2 invariant[C18] done-index-own-series: batchOK(vectors, 0, rangeindex + 1, len(o.series))
+//@   loop 2 invariant[C06] scalar-one-sample-so-far: o.funcExpr.Func.Name == "scalar" ==> forall k in 0..rangeindex+1 :: len(vectors[k].Samples) == 1
+//@   loop 3 invariant op3: fopInv(o) && fopSeries(o) && len(vectors) > 0 && len(vectors) <= len(o.scalarPoints) && sameslice(vectors, callres("model.VectorOperator.Next", 1, 0)) &&
+//@       0 <= batchIndex && batchIndex < len(vectors) && o.funcExpr.Func.Name != "scalar" &&
+//@       sameslice(vector.Samples, vectors[batchIndex].Samples) && sameslice(vector.SampleIDs, vectors[batchIndex].SampleIDs) && vector.T == vectors[batchIndex].T
+//@   loop 3 invariant step-vectors-own-their-ids3: sepIDs(vectors)
+//@   loop 3 invariant rest-as-delivered3: batchOK(vectors, batchIndex + 1, len(vectors), o.nextOps[o.vectorIndex].nSeries)
+//@   loop 3 invariant done-index-own-series3: batchOK(vectors, 0, batchIndex, len(o.series))
+//@   loop 3 invariant this-vector-as-delivered: vecOK(vector, o.nextOps[o.vectorIndex].nSeries)
+//@   loop 3 invariant[C06] kept-counts-the-samples-with-a-value: 0 <= kept && kept <= rangeindex + 1 && kept == nvalid - atloop(nvalid)
